@@ -218,6 +218,8 @@ def _surface_hits(only=None):
         continue
       if not callable(attr):
         continue
+      if name.startswith('_') and not (name.startswith('__') and name.endswith('__')):
+        continue        # private by convention: not part of the public surface the property is about
       if name in MAPPED[kind]:
         listed[(kind, name)] = 'mapped: ' + MAPPED[kind][name]; continue
       if name in EXCLUDED or (name + '@' + kind) in EXCLUDED:
